@@ -39,6 +39,8 @@ for sid in sorted(os.listdir(os.path.join(ROOT, "seeded"))):
         continue
     mf = os.path.join(d, "meta.json")
     meta = json.load(open(mf)) if os.path.exists(mf) else {"id": sid, "properties": []}
+    if meta.get("retired"):
+        continue
     repo = "/repo"
     envp = ""
     if scratch:
